@@ -301,6 +301,10 @@ func genText(t *rapid.T, maxLen int, labels map[string]bool) []rune {
 
 func TestPropRandom(t *testing.T) {
 	defer flushHits()
+	if si, _ := ev.Shard(); si == 0 {
+		ps := pools()
+		alphabetCoverage("rapid-pools", append(append([]rune(nil), ps.all...), ps.edge...))
+	}
 	rapid.Check(t, func(rt *rapid.T) {
 		shapes := map[string]bool{}
 		text := genText(rt, 64, shapes)
